@@ -293,7 +293,7 @@ structure Subquery where
   take : Option Expr := none
   deriving Inhabited
 
-def subqueryName (i : Nat) : Bytes := Bytes.ofString ("__subquery" ++ toString i)
+def subqueryName (i : Nat) : Bytes := Bytes.ofString "__subquery" ++ natToDec i
 
 def opTypeName : Op → String
   | .count .. => "CountOperator" | .where_ .. => "WhereOperator" | .sort .. => "SortOperator"
